@@ -31,7 +31,7 @@ func init() {
 
 func TestC05_AfterComponent(t *testing.T) {
 	c := harness.New(t, "C05", "after-component",
-		"pages of a template directory in which a component use without slots - @component(\"c\"), @component(\"c\", {}), @component(\"c\", {a: 1}) - (and, where the component file has a placeholder, a use that passes a slot body) is followed by every text run of <= 2 pieces from {space, LF, TAB, CRLF, NBSP, U+3000, U+2003, U+0085, FF, VT, a letter} and then by each of {a {{ }} block, an @if block, a comment, another use, plain text, the end of the file}; the component file has a placeholder or none. Exhaustive. Expected: text before + the component's rendering + the run byte for byte + the rendering of what follows. Non-trivial: a run of white space only. Distinct by construction.")
+		"pages of a template directory in which a component use without slots - @component(\"c\"), @component(\"c\", {}), @component(\"c\", {a: 1}) - (and, where the component file has a placeholder, a use that passes a slot body) is followed by every text run of <= 2 pieces from {space, LF, TAB, CRLF, NBSP, U+3000, U+2003, U+0085, FF, VT, a letter} and then by each of {a {{ }} block, an @if block, a comment, another use, plain text, the end of the file}; the component file has a placeholder or none; the same runs between the ')' of a use and its first @slot (blanks, tabs and line ends belong to the use, anything else is text and stays). Exhaustive. Expected: text before + the component's rendering + the run byte for byte + the rendering of what follows. Non-trivial: a run of white space only. Distinct by construction.")
 	defer c.Finish()
 	pieces := []string{"", " ", "\n", "\t", "\r\n", " ", "　", " ", "\u0085", "\f", "\v", "x"}
 	followers := []struct{ src, out string }{{"{{ 1 + 1 }}", "2"}, {"@if(true)y@end", "y"}, {"{{-- note --}}", ""}, {"@component(\"c\")", "<c>"}, {"tail", "tail"}, {"", ""}}
@@ -72,7 +72,32 @@ func TestC05_AfterComponent(t *testing.T) {
 			}
 		}
 	}
-	c.ExhaustivePart("2 component files x 133 runs x 6 followers x 4 spellings of the use (rotating)")
+	// the same runs between the ')' of a use and its first @slot: blanks, tabs and line ends there belong to the
+	// use; any other character - also one that only looks like white space - is text of the page and stays
+	for _, p1 := range pieces {
+		for _, p2 := range pieces {
+			run := p1 + p2
+			if p1 == "" && p2 != "" {
+				continue
+			}
+			idx++
+			if !harness.Mine(idx) {
+				continue
+			}
+			cs := treeCase{Files: map[string]string{"c": "<c>@slot", "page": "A-@component(\"c\")" + run + "@slot[s]@end@end-Z"}, Dir: "t", Ext: ".tw", Page: "page", Note: "run before the first slot"}
+			if strings.Trim(run, " \t\r\n") == "" {
+				cs.Want = want{St: "ok", Kind: "text", S: "A-<c>[s]-Z"}
+			} else {
+				// (what becomes of the slot block after text is not settled; the text is)
+				cs.Want, cs.MustContain = want{St: "unspecified", Why: "a slot block after text that ends the use"}, "A-<c>"+run
+			}
+			c.CaseEnum(run != "" && !strings.Contains(run, "x"), "run-before-first-slot")
+			if r, fl := runTreeCase(c, cs); fl != "" {
+				c.Fail(t, kindOf(fl), cs, cs.Want, r, fl)
+			}
+		}
+	}
+	c.ExhaustivePart("2 component files x 133 runs x 6 followers x 4 spellings of the use (rotating); 133 runs before the first slot")
 }
 
 // TestC05_ResponseBody: the same bytes reach an http.ResponseWriter.
